@@ -242,3 +242,10 @@ Definition w_id_nested : expr := ECmp true (ECmp true (EName 1) [(Is, EList [])]
 Lemma C07_kernel_identity_refuted :
   wf w_id_nested = true /\ rw_identity (rw_identity w_id_nested) <> rw_identity w_id_nested.
 Proof. vm_compute. split; [reflexivity|discriminate]. Qed.
+
+(** use-set-literal: the printed replacement of a non-empty `set([...])` starts with `{`; directly after the `{` of an f-string
+    replacement field that reads as an escaped brace, so the field must keep the two apart (table value
+    [set_literal_fstring_spaced]; the pinned form did not: finding kf_set_literal_fstring_braces, fixed by 4169bc3) *)
+Lemma C01_kernel_set_literal_brace_first a es :
+  exists rest, pp (rw_set_literal (ECall BSet [EList (a :: es)])) = 123%N :: rest.
+Proof. eexists. cbn [rw_set_literal pp]. reflexivity. Qed.
